@@ -10,7 +10,8 @@
 // (at() of every variable incl. the content of every region, is_null_ref, get_allocation_sites,
 // get_tags, and -- through `#define private public` on region_domain.hpp only -- the
 // reference count / init flag / site set of every region); answers are joined with " ; ".
-// --mode=itv (default, the modelled instance) | boolitv | zones | signconst  (base domains).
+// --mode=itv (default, the modelled instance) | boolitv | zones | signconst  (base domains; program
+// and base variables share their names: fixed-naming ghost manager, the only one that compiles).
 #include "crab_lang.hpp"
 #include "hcommon.hpp"
 #include <crab/domains/abstract_domain_params.hpp>
@@ -34,45 +35,73 @@
 #include <crab/domains/region_domain.hpp>
 #undef private
 
+namespace crab {
+template <> inline std::string variable_name_traits<long>::to_string(long v) { return "w" + std::to_string(v); }
+}
+
 namespace rg {
-using namespace crab::cfg_impl;
 using namespace crab::domains;
 using namespace ikos;
-typedef z_lin_exp_t lin_t;
-typedef z_lin_cst_t cst_t;
-typedef linear_constraint_system<z_number, varname_t> csts_t;
-typedef crab::variable_or_constant<z_number, varname_t> voc_t;
-typedef crab::reference_constraint<z_number, varname_t> rcst_t;
 
 template <typename T> static std::string str(const T &x) {
   crab::crab_string_os os; os << x; return os.str();
 }
 
+// the types of the statement language over a given kind of variable names
+template <typename Fac> struct lang {
+  typedef Fac fac_t;
+  typedef typename Fac::varname_t varname_t;
+  typedef crab::variable<z_number, varname_t> var_t;
+  typedef linear_expression<z_number, varname_t> lin_t;
+  typedef linear_constraint<z_number, varname_t> cst_t;
+  typedef linear_constraint_system<z_number, varname_t> csts_t;
+  typedef crab::variable_or_constant<z_number, varname_t> voc_t;
+  typedef crab::reference_constraint<z_number, varname_t> rcst_t;
+};
+// names of program variables are strings (as in crab's tests: the region domain then shares the
+// variable names with its base domain: fixed-naming ghost manager) ...
+struct str_lang : lang<crab::cfg_impl::variable_factory_t> {
+  static varname_t mk(fac_t &f, const std::string &n, long) { return f[n]; }
+};
+// ... or of another type (as in clam: the base domain gets its own names from
+// str_var_alloc_col: variable-naming ghost manager, with renaming in every binary operation)
+struct long_lang : lang<crab::var_factory_impl::variable_factory<long>> {
+  static varname_t mk(fac_t &f, const std::string &, long k) { return f[k]; }
+};
+
 using var_allocator = crab::var_factory_impl::str_var_alloc_col;
-template <class BaseAbsDom> struct VarParams {
+template <class L, class BaseAbsDom> struct RParams {
   using number_t = z_number;
-  using varname_t = crab::cfg_impl::varname_t;
+  using varname_t = typename L::varname_t;
   using varname_allocator_t = var_allocator;
   using base_abstract_domain_t = BaseAbsDom;
   using base_varname_t = typename BaseAbsDom::varname_t;
 };
 typedef typename var_allocator::varname_t bvarname_t;
-typedef region_domain<VarParams<interval_domain<z_number, bvarname_t>>> rgn_itv_t;
-typedef region_domain<VarParams<flat_boolean_numerical_domain<interval_domain<z_number, bvarname_t>>>> rgn_boolitv_t;
+typedef interval_domain<z_number, bvarname_t> bitv_t;
+typedef region_domain<RParams<str_lang, bitv_t>> rgn_itv_t;
+typedef region_domain<RParams<str_lang, flat_boolean_numerical_domain<bitv_t>>> rgn_boolitv_t;
 typedef split_dbm_domain<z_number, bvarname_t, DBM_impl::DefaultParams<z_number, DBM_impl::GraphRep::adapt_ss>> bzones_t;
-typedef region_domain<VarParams<bzones_t>> rgn_zones_t;
-typedef region_domain<VarParams<sign_constant_domain<z_number, bvarname_t>>> rgn_signconst_t;
+typedef region_domain<RParams<str_lang, bzones_t>> rgn_zones_t;
+typedef region_domain<RParams<str_lang, sign_constant_domain<z_number, bvarname_t>>> rgn_signconst_t;
+// NOTE: region_domain<RParams<long_lang, bitv_t>> would select ghost_variable_manager_with_variable_naming
+// (the configuration clam uses), but that class template does not compile in this tree (its reverse map
+// stores pair<variable, unsigned> while ghost_variables::update_rev_varmap expects pair<variable,
+// ghost_variable_kind>), so it cannot be exercised.
 
-struct ctx {
-  variable_factory_t vfac;
-  std::vector<z_var> I, B, P, R, Q, U;
+template <typename L> struct ctx {
+  typedef typename L::var_t var_t;
+  typename L::fac_t vfac;
+  std::vector<var_t> I, B, P, R, Q, U;
   std::map<ikos::index_t, std::string> names;
   crab::tag_manager tm;
   std::vector<crab::tag> sites;
-  void add(std::vector<z_var> &v, const std::string &pre, unsigned n, crab::variable_type_kind k, unsigned bw) {
+  long next_key = 1;
+  void add(std::vector<var_t> &v, const std::string &pre, unsigned n, crab::variable_type_kind k, unsigned bw) {
     for (unsigned i = 0; i < n; ++i) {
       std::string nm = pre + std::to_string(i);
-      z_var x = bw ? z_var(vfac[nm], k, bw) : z_var(vfac[nm], k);
+      typename L::varname_t vn = L::mk(vfac, nm, next_key++);
+      var_t x = bw ? var_t(vn, k, bw) : var_t(vn, k);
       names[x.index()] = nm;
       v.push_back(x);
     }
@@ -86,9 +115,9 @@ struct ctx {
     add(U, "U", nU, crab::REG_UNKNOWN_TYPE, 0);
     for (unsigned i = 0; i < 16; ++i) sites.push_back(tm.mk_tag());
   }
-  z_var var(const std::string &n) {
+  var_t var(const std::string &n) {
     unsigned k = std::stoul(n.substr(1));
-    std::vector<z_var> *v = nullptr;
+    std::vector<var_t> *v = nullptr;
     switch (n[0]) {
     case 'i': v = &I; break; case 'b': v = &B; break; case 'p': v = &P; break;
     case 'R': v = &R; break; case 'Q': v = &Q; break; case 'U': v = &U; break;
@@ -111,25 +140,29 @@ struct tok {
 };
 
 // E n c1 v1 ... cn vn k   (variables by name)
-inline lin_t parse_exp(ctx &c, tok &k) {
+template <typename L> typename L::lin_t parse_exp(ctx<L> &c, tok &k) {
+  typedef typename L::lin_t lin_t;
   k.next();
   long n = k.nexti();
   lin_t e;
-  for (long i = 0; i < n; ++i) { z_number co = k.nextz(); z_var v = c.var(k.next()); e = e + lin_t(co, v); }
+  for (long i = 0; i < n; ++i) { z_number co = k.nextz(); typename L::var_t v = c.var(k.next()); e = e + lin_t(co, v); }
   e = e + k.nextz();
   return e;
 }
-inline cst_t parse_cst(ctx &c, tok &k) {       // C kind E...
+template <typename L> typename L::cst_t parse_cst(ctx<L> &c, tok &k) {       // C kind E...
+  typedef typename L::cst_t cst_t;
   k.next();
   std::string kind = k.next();
-  lin_t e = parse_exp(c, k);
+  typename L::lin_t e = parse_exp(c, k);
   if (kind == "eq") return cst_t(e, cst_t::EQUALITY);
   if (kind == "ne") return cst_t(e, cst_t::DISEQUATION);
   if (kind == "le") return cst_t(e, cst_t::INEQUALITY);
   return cst_t(e, cst_t::STRICT_INEQUALITY);
 }
 // reference constraints:  u <rel> p   |   b <rel> p q <offset>       rel in eq ne lt le gt ge
-inline rcst_t parse_rcst(ctx &c, tok &k) {
+template <typename L> typename L::rcst_t parse_rcst(ctx<L> &c, tok &k) {
+  typedef typename L::rcst_t rcst_t;
+  typedef typename L::var_t z_var;
   std::string ar = k.next(), rel = k.next();
   if (ar == "u") {
     z_var p = c.var(k.next());
@@ -149,7 +182,8 @@ inline rcst_t parse_rcst(ctx &c, tok &k) {
   if (rel == "ge") return rcst_t::mk_ge(p, q, off);
   return rcst_t::mk_gt(p, q, off);
 }
-inline voc_t parse_val(ctx &c, tok &k, bool ref_region) {   // v:<var> | c:<int> | null
+template <typename L> typename L::voc_t parse_val(ctx<L> &c, tok &k, bool ref_region) {   // v:<var> | c:<int> | null
+  typedef typename L::voc_t voc_t;
   std::string s = k.next();
   if (s == "null") return voc_t::make_reference_null();
   if (s[0] == 'v') return voc_t(c.var(s.substr(2)));
@@ -164,21 +198,21 @@ template <typename T> std::string show_set(std::vector<T> v) {
   return r + "}";
 }
 
-template <typename Dom> std::string show_sites(ctx &c, Dom &d, const z_var &p) {
+template <typename L, typename Dom> std::string show_sites(ctx<L> &c, Dom &d, const typename L::var_t &p) {
   std::vector<crab::tag> out;
   if (!d.get_allocation_sites(p, out)) return "?";
   std::vector<long> v;
   for (auto &t : out) v.push_back(c.site_no(t));
   return show_set(v);
 }
-template <typename Dom> std::string show_tags(ctx &c, Dom &d, const z_var &rgn) {
+template <typename L, typename Dom> std::string show_tags(ctx<L> &c, Dom &d, const typename L::var_t &rgn) {
   std::vector<uint64_t> out;
   if (c.P.empty() || !d.get_tags(rgn, c.P[0], out)) return "?";
   std::vector<long> v;
   for (auto t : out) v.push_back((long)t);
   return show_set(v);
 }
-template <typename Dom> std::string show_count(ctx &c, Dom &d, const z_var &rgn) {
+template <typename L, typename Dom> std::string show_count(ctx<L> &c, Dom &d, const typename L::var_t &rgn) {
   auto info = d.m_rgn_env.at(rgn);
   const small_range &sr = info.refcount_val();
   std::string w = str(sr), s;          // small_range::write: [1,1](<index>) etc.
@@ -196,7 +230,7 @@ template <typename Dom> std::string show_count(ctx &c, Dom &d, const z_var &rgn)
   s += b.is_bottom() ? ",ib" : b.is_false() ? ",if" : b.is_true() ? ",it" : ",i?";
   return s;
 }
-template <typename Dom> std::string show_rsites(ctx &c, Dom &d, const z_var &rgn) {
+template <typename L, typename Dom> std::string show_rsites(ctx<L> &c, Dom &d, const typename L::var_t &rgn) {
   if (!crab_domain_params_man::get().region_allocation_sites()) return "?";
   auto s = d.m_alloc_env.at(rgn);
   if (s.is_top()) return "?";
@@ -205,7 +239,7 @@ template <typename Dom> std::string show_rsites(ctx &c, Dom &d, const z_var &rgn
   return show_set(v);
 }
 
-template <typename Dom> std::string show_state(ctx &c, Dom &d) {
+template <typename L, typename Dom> std::string show_state(ctx<L> &c, Dom &d) {
   if (d.is_bottom()) return "_|_";
   std::string r = "I:";
   for (size_t i = 0; i < c.I.size(); ++i) { r += (i ? "|" : ""); r += str(d.at(c.I[i])); }
@@ -222,7 +256,7 @@ template <typename Dom> std::string show_state(ctx &c, Dom &d) {
   bool first = true;
   for (auto *vs : {&c.R, &c.Q, &c.U})
     for (size_t i = 0; i < vs->size(); ++i) {
-      const z_var &g = (*vs)[i];
+      const typename L::var_t &g = (*vs)[i];
       r += (first ? "" : "|"); first = false;
       r += str(d.at(g)) + ";" + show_count(c, d, g) + ";" + show_rsites(c, d, g) + ";" + show_tags(c, d, g);
     }
@@ -234,7 +268,13 @@ static crab::domains::arith_operation_t arith_op(const std::string &o) {
          o == "sdiv" ? OP_SDIV : o == "udiv" ? OP_UDIV : o == "srem" ? OP_SREM : OP_UREM;
 }
 
-template <typename Dom> std::string run_history(const std::vector<std::string> &line) {
+template <typename L, typename Dom> std::string run_history(const std::vector<std::string> &line) {
+  typedef typename L::var_t z_var;
+  typedef typename L::lin_t lin_t;
+  typedef typename L::cst_t cst_t;
+  typedef typename L::csts_t csts_t;
+  typedef typename L::voc_t voc_t;
+  typedef typename L::rcst_t rcst_t;
   std::vector<std::vector<std::string>> ops(1);
   for (auto &s : line) { if (s == ";") ops.emplace_back(); else ops.back().push_back(s); }
   if (ops[0].size() < 9 || ops[0][0] != "rg") return "HARNESS-ERROR";
@@ -242,7 +282,7 @@ template <typename Dom> std::string run_history(const std::vector<std::string> &
   region_domain_params prm(ps[0] == '1', ps[1] == '1', ps[2] == '1', ps[3] == '1', ps[4] == '1');
   crab_domain_params_man::get().update_params(prm);
   unsigned nregs = std::stoul(ops[0][2]);
-  ctx c;
+  ctx<L> c;
   c.init(std::stoul(ops[0][3]), std::stoul(ops[0][4]), std::stoul(ops[0][5]), std::stoul(ops[0][6]),
          std::stoul(ops[0][7]), std::stoul(ops[0][8]));
   Dom topv;
@@ -374,10 +414,10 @@ template <typename Dom> std::string run_history(const std::vector<std::string> &
 static int mode = 0;
 static std::string eval(const std::vector<std::string> &t) {
   switch (mode) {
-  case 1: return rg::run_history<rg::rgn_boolitv_t>(t);
-  case 2: return rg::run_history<rg::rgn_zones_t>(t);
-  case 3: return rg::run_history<rg::rgn_signconst_t>(t);
-  default: return rg::run_history<rg::rgn_itv_t>(t);
+  case 1: return rg::run_history<rg::str_lang, rg::rgn_boolitv_t>(t);
+  case 2: return rg::run_history<rg::str_lang, rg::rgn_zones_t>(t);
+  case 3: return rg::run_history<rg::str_lang, rg::rgn_signconst_t>(t);
+  default: return rg::run_history<rg::str_lang, rg::rgn_itv_t>(t);
   }
 }
 int main(int argc, char **argv) {
